@@ -15,16 +15,17 @@ import (
 )
 
 type options struct {
-	tier      string
-	repo      string
-	verif     string
-	mirror    bool
-	verbose   bool
-	timeout   int
-	seed      int
-	dumpDir   string
-	noReplay  bool
-	only      string
+	tier       string
+	repo       string
+	verif      string
+	mirror     bool
+	verbose    bool
+	timeout    int
+	seed       int
+	dumpDir    string
+	noReplay   bool
+	noEvidence bool
+	only       string
 }
 
 func main() {
@@ -42,6 +43,7 @@ func main() {
 	fs.IntVar(&o.timeout, "timeout", 0, "per-obligation solver timeout in seconds (default 10 quick / 60 thorough)")
 	fs.StringVar(&o.dumpDir, "dump", "", "write every query to this directory")
 	fs.BoolVar(&o.noReplay, "no-replay", false, "do not run replays")
+	fs.BoolVar(&o.noEvidence, "no-evidence", false, "do not (re)write the evidence file (used when checking deliberately broken trees)")
 	fs.StringVar(&o.only, "only", "", "only obligations whose name contains this string")
 	var args []string
 	rest := os.Args[2:]
@@ -115,25 +117,25 @@ func usage() {
 // ---------------------------------------------------------------------------
 
 type checkResult struct {
-	prop       string
-	obls       []*Obligation
-	funcs      []funcInfo
-	genErrors  []string
-	assumed    map[string]bool
-	abstracted map[string]bool
-	warnings   []string
+	prop          string
+	obls          []*Obligation
+	funcs         []funcInfo
+	genErrors     []string
+	assumed       map[string]bool
+	abstracted    map[string]bool
+	warnings      []string
 	contractsUsed map[string]bool
-	loadSecs   float64
-	genSecs    float64
-	solveSecs  float64
+	loadSecs      float64
+	genSecs       float64
+	solveSecs     float64
 }
 
 type funcInfo struct {
-	Key    string `json:"function"`
-	Source string `json:"source"`
-	Hash   string `json:"source_sha256_prefix"`
-	Obls   int    `json:"obligations"`
-	Trusted bool  `json:"trusted,omitempty"`
+	Key     string `json:"function"`
+	Source  string `json:"source"`
+	Hash    string `json:"source_sha256_prefix"`
+	Obls    int    `json:"obligations"`
+	Trusted bool   `json:"trusted,omitempty"`
 }
 
 // generate builds all obligations of a property from the program.
@@ -578,7 +580,9 @@ func report(p *Prog, cr *checkResult, o *options, wall float64) int {
 		fmt.Printf("VIOLATION property=%s replay=%s no-failing-input-found\n", cr.prop, path)
 	}
 	// evidence
-	writeEvidence(p, cr, o, wall, nObl, nDis, nCover, nCoverOK, byBackend, solverTime, maxTime, slowest, violations, knownLines)
+	if !o.noEvidence {
+		writeEvidence(p, cr, o, wall, nObl, nDis, nCover, nCoverOK, byBackend, solverTime, maxTime, slowest, violations, knownLines)
+	}
 	fmt.Printf("govc: property %s tier %s: %d obligations, %d discharged, %d cover guards (%d ok), %d functions, load %.1fs gen %.1fs solve %.1fs wall %.1fs\n",
 		cr.prop, o.tier, nObl, nDis, nCover, nCoverOK, len(cr.funcs), cr.loadSecs, cr.genSecs, cr.solveSecs, wall)
 	if o.verbose {
@@ -686,25 +690,25 @@ func writeEvidence(p *Prog, cr *checkResult, o *options, wall float64, nObl, nDi
 		}
 	}
 	cov := map[string]any{
-		"obligations":          nObl,
-		"discharged":           nDis,
-		"checker_cmd":          fmt.Sprintf("bin/govc check %s --tier %s", cr.prop, o.tier),
-		"trusted_base":         trusted,
-		"functions_under_contract": cr.funcs,
-		"per_obligation":       per,
-		"discharged_by_backend": byBackend,
-		"solver_seconds_total": round3(solverTime),
-		"slowest_obligation":   map[string]any{"name": slowest, "seconds": round3(maxTime)},
-		"cover_guards":         map[string]any{"total": nCover, "satisfiable": nCoverOK, "inconclusive": nCover - nCoverOK, "note": "a guard answered unsat is a violation (vacuity); unknown/timeout under quantified assumptions is inconclusive and only reported"},
-		"abstracted":           sortedKeys(cr.abstracted),
+		"obligations":                  nObl,
+		"discharged":                   nDis,
+		"checker_cmd":                  fmt.Sprintf("bin/govc check %s --tier %s", cr.prop, o.tier),
+		"trusted_base":                 trusted,
+		"functions_under_contract":     cr.funcs,
+		"per_obligation":               per,
+		"discharged_by_backend":        byBackend,
+		"solver_seconds_total":         round3(solverTime),
+		"slowest_obligation":           map[string]any{"name": slowest, "seconds": round3(maxTime)},
+		"cover_guards":                 map[string]any{"total": nCover, "satisfiable": nCoverOK, "inconclusive": nCover - nCoverOK, "note": "a guard answered unsat is a violation (vacuity); unknown/timeout under quantified assumptions is inconclusive and only reported"},
+		"abstracted":                   sortedKeys(cr.abstracted),
 		"contracts_used_at_call_sites": sortedKeys(cr.contractsUsed),
-		"contract_files":       p.cs.Files,
-		"contract_token_scan":  p.cs.Scan,
-		"generation_errors":    cr.genErrors,
-		"known_findings_reported": knownLines,
-		"samples":              samples,
-		"timing":               map[string]any{"load_s": round3(cr.loadSecs), "generate_s": round3(cr.genSecs), "solve_s": round3(cr.solveSecs)},
-		"explanation":          propertyExplanation(cr.prop),
+		"contract_files":               p.cs.Files,
+		"contract_token_scan":          p.cs.Scan,
+		"generation_errors":            cr.genErrors,
+		"known_findings_reported":      knownLines,
+		"samples":                      samples,
+		"timing":                       map[string]any{"load_s": round3(cr.loadSecs), "generate_s": round3(cr.genSecs), "solve_s": round3(cr.solveSecs)},
+		"explanation":                  propertyExplanation(cr.prop),
 	}
 	if extra := extraCoverage(cr.prop, o); extra != nil {
 		for k, v := range extra {
